@@ -18,53 +18,67 @@ NoPend == "none"
 \* writing n bytes at offset 0 of a file that is NOT truncated replaces it completely only when
 \* it was not longer than n.  -1 = unknown / irrelevant.
 GetSz(fs, p) == IF p \in DOMAIN fs.sz THEN fs.sz[p] ELSE -1
-EmptyFs(old) == [c |-> [p \in {"M"} |-> old], pend |-> [p \in {"M"} |-> NoPend], sz |-> [p \in {"M"} |-> -1]]
+\* fs.loc[h]: an open file is a handle named by the path it was opened as (that is how the log names
+\* it); the file it writes to follows renames: loc[h] is the path under which that file is found NOW,
+\* Gone when it has been unlinked or replaced (data flushed to it is lost).
+Gone == "<gone>"
+NoLoc == [h \in {} |-> ""]
+Loc(fs, h) == IF "loc" \in DOMAIN fs /\ h \in DOMAIN fs.loc THEN fs.loc[h] ELSE h
+LocOf(fs) == IF "loc" \in DOMAIN fs THEN fs.loc ELSE NoLoc
+Move(loc, q, q2) == [h \in DOMAIN loc |-> IF loc[h] = q THEN q2 ELSE loc[h]]
+EmptyFs(old) == [c |-> [p \in {"M"} |-> old], pend |-> [p \in {"M"} |-> NoPend], sz |-> [p \in {"M"} |-> -1], loc |-> NoLoc]
 \* a filesystem that already holds other files (leftovers of an earlier, interrupted operation):
 \* init is a sequence of <<role, content class>>
 RECURSIVE WithFiles(_, _)
 WithFiles(fs, init) == IF init = <<>> THEN fs
                        ELSE WithFiles([c |-> Put(fs.c, Head(init)[1], Head(init)[2]),
                                        pend |-> Put(fs.pend, Head(init)[1], NoPend),
-                                       sz |-> Put(fs.sz, Head(init)[1], Head(init)[3])], Tail(init))
+                                       sz |-> Put(fs.sz, Head(init)[1], Head(init)[3]), loc |-> LocOf(fs)], Tail(init))
 
 Apply(fs, op) ==
     LET p == op.p
-        Set(c2, pend2) == [c |-> c2, pend |-> pend2, sz |-> fs.sz]
+        q == Loc(fs, p)                  \* where the file behind handle p is found now
+        loc == LocOf(fs)
+        Mk(c2, pend2, sz2, loc2) == [c |-> c2, pend |-> pend2, sz |-> sz2, loc |-> loc2]
+        Set(c2, pend2) == Mk(c2, pend2, fs.sz, loc)
+        Opened == Put(loc, p, p)
     IN
-    CASE op.kind = "open_trunc"  -> [c |-> Put(fs.c, p, "Empty"), pend |-> Put(fs.pend, p, NoPend), sz |-> Put(fs.sz, p, 0)]
-      [] op.kind = "open_excl"   -> [c |-> Put(fs.c, p, "Empty"), pend |-> Put(fs.pend, p, NoPend), sz |-> Put(fs.sz, p, 0)]
-      [] op.kind = "open_append" -> Set(Put(fs.c, p, IF Get(fs.c, p) = "Absent" THEN "Empty" ELSE Get(fs.c, p)),
-                                        Put(fs.pend, p, NoPend))
-      [] op.kind = "open_create" -> [c |-> Put(fs.c, p, IF Get(fs.c, p) = "Absent" THEN "Empty" ELSE Get(fs.c, p)),
-                                     pend |-> Put(fs.pend, p, NoPend),
-                                     sz |-> Put(fs.sz, p, IF Get(fs.c, p) = "Absent" THEN 0 ELSE GetSz(fs, p))]
+    CASE op.kind = "open_trunc"  -> Mk(Put(fs.c, p, "Empty"), Put(fs.pend, p, NoPend), Put(fs.sz, p, 0), Opened)
+      [] op.kind = "open_excl"   -> Mk(Put(fs.c, p, "Empty"), Put(fs.pend, p, NoPend), Put(fs.sz, p, 0), Opened)
+      [] op.kind = "open_append" -> Mk(Put(fs.c, p, IF Get(fs.c, p) = "Absent" THEN "Empty" ELSE Get(fs.c, p)),
+                                       Put(fs.pend, p, NoPend), fs.sz, Opened)
+      [] op.kind = "open_create" -> Mk(Put(fs.c, p, IF Get(fs.c, p) = "Absent" THEN "Empty" ELSE Get(fs.c, p)),
+                                       Put(fs.pend, p, NoPend),
+                                       Put(fs.sz, p, IF Get(fs.c, p) = "Absent" THEN 0 ELSE GetSz(fs, p)), Opened)
       [] op.kind = "open_rw"     -> fs
       [] op.kind = "write"       ->
             \* data written at offset 0 of a freshly opened file: it becomes the whole content iff the
             \* file was empty or (known to be) not longer than the data
             LET whole == Get(fs.pend, p) = NoPend /\
-                         (Get(fs.c, p) = "Empty" \/ (GetSz(fs, p) >= 0 /\ op.n >= 0 /\ GetSz(fs, p) <= op.n))
+                         (Get(fs.c, q) = "Empty" \/ (GetSz(fs, q) >= 0 /\ op.n >= 0 /\ GetSz(fs, q) <= op.n))
             IN Set(fs.c, Put(fs.pend, p, IF whole THEN op.d ELSE "Other"))
       [] op.kind = "dwrite"      ->   \* os.sendfile: straight to the file, nothing is buffered in the process
-            IF op.n = 0 THEN fs
-            ELSE LET whole == Get(fs.c, p) = "Empty" \/ (GetSz(fs, p) >= 0 /\ op.n >= 0 /\ GetSz(fs, p) <= op.n)
-                 IN [c |-> Put(fs.c, p, IF whole THEN op.d ELSE "Other"), pend |-> Put(fs.pend, p, NoPend),
-                     sz |-> Put(fs.sz, p, op.n)]
+            IF op.n = 0 \/ q = Gone THEN fs
+            ELSE LET whole == Get(fs.c, q) = "Empty" \/ (GetSz(fs, q) >= 0 /\ op.n >= 0 /\ GetSz(fs, q) <= op.n)
+                 IN Mk(Put(fs.c, q, IF whole THEN op.d ELSE "Other"), Put(fs.pend, p, NoPend), Put(fs.sz, q, op.n), loc)
       [] op.kind = "close"       -> IF Get(fs.pend, p) = NoPend THEN fs
-                                    ELSE Set(Put(fs.c, p, Get(fs.pend, p)), Put(fs.pend, p, NoPend))
-      [] op.kind = "remove"      -> Set(Put(fs.c, p, "Absent"), Put(fs.pend, p, NoPend))
+                                    ELSE IF q = Gone THEN Set(fs.c, Put(fs.pend, p, NoPend))
+                                    ELSE Set(Put(fs.c, q, Get(fs.pend, p)), Put(fs.pend, p, NoPend))
+      \* unlinking a name: handles on that file keep it alive, nameless (what they flush is lost)
+      [] op.kind = "remove"      -> Mk(Put(fs.c, p, "Absent"), fs.pend, fs.sz, Move(loc, p, Gone))
       [] op.kind = "rename"      -> IF p = op.p2 THEN fs ELSE      \* renaming a file onto itself changes nothing
-                                    [c |-> Put(Put(fs.c, op.p2, Get(fs.c, p)), p, "Absent"),
-                                     pend |-> Put(Put(fs.pend, op.p2, NoPend), p, NoPend),
-                                     sz |-> Put(fs.sz, op.p2, GetSz(fs, p))]
-      [] op.kind = "copy"        -> [c |-> Put(fs.c, p, Get(fs.c, op.p2)), pend |-> Put(fs.pend, p, NoPend),
-                                     sz |-> Put(fs.sz, p, GetSz(fs, op.p2))]
+                                    \* handles on the replaced file lose it, handles on the renamed file follow it
+                                    Mk(Put(Put(fs.c, op.p2, Get(fs.c, p)), p, "Absent"), fs.pend,
+                                       Put(fs.sz, op.p2, GetSz(fs, p)), Move(Move(loc, op.p2, Gone), p, op.p2))
+      [] op.kind = "copy"        -> Mk(Put(fs.c, p, Get(fs.c, op.p2)), Put(fs.pend, p, NoPend),
+                                       Put(fs.sz, p, GetSz(fs, op.p2)), loc)
       [] op.kind = "truncate"    -> Set(Put(fs.c, p, "Other"), fs.pend)
       [] OTHER -> fs               \* mkdir, chmod, utime ... do not change file contents
 
 \* a write that reached the disk only partly (k > 0 bytes flushed) / not at all
-Torn(fs, op, k) == [c |-> Put(fs.c, op.p, IF k > 0 THEN "Partial" ELSE Get(fs.c, op.p)),
-                    pend |-> Put(fs.pend, op.p, NoPend), sz |-> fs.sz]
+Torn(fs, op, k) == LET q == Loc(fs, op.p) IN
+                   [c |-> IF q = Gone THEN fs.c ELSE Put(fs.c, q, IF k > 0 THEN "Partial" ELSE Get(fs.c, q)),
+                    pend |-> Put(fs.pend, op.p, NoPend), sz |-> fs.sz, loc |-> LocOf(fs)]
 
 RECURSIVE Replay(_, _)
 Replay(fs, ops) == IF ops = <<>> THEN fs ELSE Replay(Apply(fs, Head(ops)), Tail(ops))
